@@ -250,12 +250,33 @@ TrSync ==
              /\ dead' = (good = {} \/ ~gsok \/ ~mok)
              /\ borrow' = IF good = {} THEN borrow ELSE (CHOOSE c \in good : TRUE).br
 
-Known == {"reset", "call", "par", "tcall", "tret", "canary", "sync"}
+\* read storm: many threads issued ONLY shared operations (fetch, try_fetch, try_fetch_by_id, Read and
+\* Option<Read> system data, Fetch::clone, MetaTable::iter, drops of the guards obtained) on the
+\* resources `ids`, all guards released again.  In a state in which these resources are present and
+\* no exclusive guard on them exists, FetchRes grants mode "r" whatever the shared count is, and
+\* shared operations only move that count: EVERY interleaving succeeds, so no linearisation has to
+\* be searched - a single failure (panic or None) is an outcome no behaviour of World.tla explains.
+TrRStorm ==
+  /\ Is("rstorm")
+  /\ UNCHANGED <<store, borrow, guards, dropped, returned, nextIdent, call, outcome, par, confs>>
+  /\ IF dead THEN UNCHANGED <<dead, ok>>
+     ELSE LET e == Ev
+              idset == {<<e.ids[i][1], e.ids[i][2]>> : i \in DOMAIN e.ids}
+          IN IF par \/ ~(idset \subseteq Ids) \/ DOMAIN guards # {}
+             THEN dead' = TRUE /\ ok' = [ok EXCEPT !.tool = FALSE]
+             ELSE LET quiet == \A id \in idset : store[id] # Absent /\ borrow[id] = Free
+                      b1 == quiet => e.failures = 0
+                      b2 == ObsBSeq(e.obs) = SpecBSeq(borrow) /\ e.obs.guards = <<>>
+                      b3 == ObsMSeq(e.obs) = SpecMSeq(store)
+                  IN /\ ok' = [ok EXCEPT !.c08out = @ /\ b1, !.c08obs = @ /\ b2, !.c09obs = @ /\ b3]
+                     /\ dead' = ~(b1 /\ b2 /\ b3)
+
+Known == {"reset", "call", "par", "tcall", "tret", "canary", "sync", "rstorm"}
 TrSkip ==
   /\ l <= Len(Rec) /\ Ev.ev \notin Known /\ l' = l + 1
   /\ UNCHANGED <<store, borrow, guards, dropped, returned, nextIdent, call, outcome, dead, ok, par, confs>>
 
-TNext == TrReset \/ TrCall \/ TrPar \/ TrTCall \/ TrTRet \/ TrCanary \/ TrSync \/ TrSkip
+TNext == TrReset \/ TrCall \/ TrPar \/ TrTCall \/ TrTRet \/ TrCanary \/ TrSync \/ TrRStorm \/ TrSkip
 Spec == TInit /\ [][TNext]_vars
 
 \* ---- per-property invariants ------------------------------------------------------
